@@ -233,6 +233,10 @@ AGGR_OPS = [ASTOperation.SUM, ASTOperation.AVG, ASTOperation.LEN, ASTOperation.F
 @contract(FM, 'Constraint.is_logical_constraint', prop='C18')
 class IsLogical:
     models = staticmethod(ctc_models)
+    # the operator scan of the dependency walks the tree with an explicit stack (no invariant): the clause is evaluated natively;
+    # callers use the predicate as a pure function of the constraint and the heap
+    as_function = True
+    native_only = ('post_ops',)
 
     def post_ops(self, result):
         return result == all(o in LOGICAL_OPS for o in ops_of(self.ast.root))
@@ -241,6 +245,10 @@ class IsLogical:
 @contract(FM, 'Constraint.is_arithmetic_constraint', prop='C18')
 class IsArithmetic:
     models = staticmethod(ctc_models)
+    # the operator scan of the dependency walks the tree with an explicit stack (no invariant): the clause is evaluated natively;
+    # callers use the predicate as a pure function of the constraint and the heap
+    as_function = True
+    native_only = ('post_ops',)
 
     def post_ops(self, result):
         return result == any(o in ARITH_OPS for o in ops_of(self.ast.root))
@@ -249,6 +257,10 @@ class IsArithmetic:
 @contract(FM, 'Constraint.is_aggregation_constraint', prop='C18')
 class IsAggregation:
     models = staticmethod(ctc_models)
+    # the operator scan of the dependency walks the tree with an explicit stack (no invariant): the clause is evaluated natively;
+    # callers use the predicate as a pure function of the constraint and the heap
+    as_function = True
+    native_only = ('post_ops',)
 
     def post_ops(self, result):
         return result == any(o in AGGR_OPS for o in ops_of(self.ast.root))
@@ -270,6 +282,10 @@ class CtcGetFeatures:
 @contract(FM, 'Constraint.is_complex_constraint', prop='C18')
 class IsComplex:
     models = staticmethod(ctc_models)
+    # the operator scan of the dependency walks the tree with an explicit stack (no invariant): the clause is evaluated natively;
+    # callers use the predicate as a pure function of the constraint and the heap
+    as_function = True
+    native_only = ('post_consistent',)
 
     def pre(self):
         return wf_node(self.ast.root)
@@ -282,6 +298,7 @@ class IsComplex:
 @contract(FM, 'Constraint.is_pseudocomplex_constraint', prop='C18')
 class IsPseudoComplex:
     models = staticmethod(ctc_models)
+    as_function = True
 
     def pre(self):
         return wf_node(self.ast.root)
@@ -328,3 +345,98 @@ class GetSimpleConstraints:
 
     def post(self, result):
         return result == [c for c in self.ctcs if req_form(c.ast.root) or exc_form(c.ast.root)]
+
+
+# ------------------------------------------------------------------ the remaining constraint-kind listings: each is exactly the
+# filter of the model's constraints by the corresponding predicate (the predicates themselves are the clauses above)
+@contract(FM, 'FeatureModel.get_logical_constraints', prop='C18', also=('C03',))
+class GetLogicalConstraints:
+    models = staticmethod(ctc_models)
+
+    def pre(self):
+        return all(c is not None for c in self.ctcs)
+
+    def post(self, result):
+        return result == [c for c in self.ctcs if c.is_logical_constraint()]
+
+
+@contract(FM, 'FeatureModel.get_arithmetic_constraints', prop='C18', also=('C03',))
+class GetArithmeticConstraints:
+    models = staticmethod(ctc_models)
+
+    def pre(self):
+        return all(c is not None for c in self.ctcs)
+
+    def post(self, result):
+        return result == [c for c in self.ctcs if c.is_arithmetic_constraint()]
+
+
+@contract(FM, 'FeatureModel.get_aggregations_constraints', prop='C18', also=('C03',))
+class GetAggregationsConstraints:
+    models = staticmethod(ctc_models)
+
+    def pre(self):
+        return all(c is not None for c in self.ctcs)
+
+    def post(self, result):
+        return result == [c for c in self.ctcs if c.is_aggregation_constraint()]
+
+
+@contract(FM, 'FeatureModel.get_complex_constraints', prop='C18', also=('C03',))
+class GetComplexConstraints:
+    models = staticmethod(ctc_models)
+
+    def pre(self):
+        return all(c is not None and wf_node(c.ast.root) for c in self.ctcs)
+
+    def post(self, result):
+        return result == [c for c in self.ctcs if c.is_complex_constraint()]
+
+
+def ctc_models_small(scope, seed):
+    """the same constraint trees three per model and without the big random ones: the CNF conversion behind the pseudo- /
+    strict-complex predicates is exponential, a listing over 25 deep constraints does not finish within the call limit"""
+    def size(a):
+        return 1 if not isinstance(a, list) else 1 + sum(size(x) for x in a[1:])
+    for d in ctc_models(scope, seed):
+        cs = [c for c in d['ctcs'] if size(c['ast']) <= 9]
+        for k in range(0, min(len(cs), 15), 3):
+            yield dict(d, ctcs=cs[k:k + 3])
+
+
+@contract(FM, 'Constraint.is_strictcomplex_constraint', prop='C18')
+class IsStrictComplex:
+    models = staticmethod(ctc_models)
+    as_function = True
+    native_only = ('post_inside_complex',)
+
+    def pre(self):
+        return wf_node(self.ast.root)
+
+    def known_C18_dep_simplify(self):
+        return has_xor_or_equivalence(self.ast.root)
+
+    def post_inside_complex(self, result):
+        return implies(result, self.is_complex_constraint())
+
+
+@contract(FM, 'FeatureModel.get_pseudocomplex_constraints', prop='C18', also=('C03',))
+class GetPseudoComplexConstraints:
+    models = staticmethod(ctc_models_small)
+
+    def pre(self):
+        return all(c is not None and wf_node(c.ast.root) for c in self.ctcs)
+
+    def post(self, result):
+        return result == [c for c in self.ctcs if c.is_pseudocomplex_constraint()]
+
+
+@contract(FM, 'FeatureModel.get_strictcomplex_constraints', prop='C18', also=('C03',))
+class GetStrictComplexConstraints:
+    models = staticmethod(ctc_models_small)
+
+    def pre(self):
+        return all(c is not None and wf_node(c.ast.root) for c in self.ctcs)
+
+    def post(self, result):
+        return result == [c for c in self.ctcs if c.is_strictcomplex_constraint()]
